@@ -150,8 +150,62 @@ CAPTURE_PREFIXES = ("__splink__df_representatives", "__splink__representatives_s
                     "__splink__df_neighbours")
 
 
+_SPARK: dict = {}
+
+
+def spark_api():
+    """Thorough tier only: one local Spark session for the whole run; lineage is broken by parquet
+    files under a scratch directory in /var/tmp that spark_stop() removes."""
+    import os
+    import tempfile
+    if "spark" not in _SPARK:
+        os.environ.setdefault("PYSPARK_SUBMIT_ARGS", "--driver-memory 4g pyspark-shell")
+        from pyspark.sql import SparkSession
+        spark = (SparkSession.builder.master("local[2]").appName("verif-c05").config("spark.ui.enabled", "false")
+                 .config("spark.sql.shuffle.partitions", "2").config("spark.default.parallelism", "2")
+                 .config("spark.sql.ansi.enabled", "false").getOrCreate())
+        spark.sparkContext.setLogLevel("OFF")
+        ckpt = tempfile.mkdtemp(prefix="c05_spark_", dir="/var/tmp")
+        spark.sparkContext.setCheckpointDir(ckpt)
+        _SPARK.update(spark=spark, ckpt=ckpt)
+    import logging
+    logging.getLogger("splink").setLevel(logging.CRITICAL)
+    from splink.internals.spark.database_api import SparkAPI
+    spark = _SPARK["spark"]
+    for t in spark.catalog.listTables():
+        if t.isTemporary:
+            spark.catalog.dropTempView(t.name)
+    return SparkAPI(spark_session=spark, break_lineage_method="parquet", num_partitions_on_repartition=2)
+
+
+def spark_clean():
+    """Remove the parquet files written for the case just finished."""
+    import os
+    import shutil
+    ckpt = _SPARK.get("ckpt")
+    if ckpt:
+        for root in os.listdir(ckpt):
+            sub = os.path.join(ckpt, root)
+            for name in os.listdir(sub) if os.path.isdir(sub) else []:
+                shutil.rmtree(os.path.join(sub, name), ignore_errors=True)
+
+
+def spark_stop():
+    import shutil
+    if "spark" in _SPARK:
+        try:
+            _SPARK["spark"].stop()
+        finally:
+            shutil.rmtree(_SPARK["ckpt"], ignore_errors=True)
+            _SPARK.clear()
+
+
+def _make_api(backend):
+    return spark_api() if backend == "spark" else su.make_api(backend)
+
+
 def _capturing_api(backend, names_only=False):
-    api = su.make_api(backend)
+    api = _make_api(backend)
     cap = []
     orig = api.sql_pipeline_to_splink_dataframe
 
@@ -186,7 +240,16 @@ def run_impl(case, capture=False):
     if capture:
         api, cap = _capturing_api(backend, names_only=(capture == "count"))
     else:
-        api, cap = su.make_api(backend), []
+        api, cap = _make_api(backend), []
+    try:
+        return _run_impl(case, api, cap)
+    finally:
+        if backend == "spark":
+            spark_clean()
+
+
+def _run_impl(case, api, cap):
+    backend = case["backend"]
     kw = _thr_kwargs(case["thr"])
     if case["entry"] == "standalone":
         from splink.clustering import cluster_pairwise_predictions_at_threshold as cpt
